@@ -230,6 +230,37 @@ def gen_random(rng, prof=None):
         rng.shuffle(absence)              # the user's list need not be sorted
     sim = dict(rule=rng.randrange(0, 9), absence=absence, auto_flag=rng.random() < 0.5,
                max_time=p["max_time"] if not big else p["max_time"] * 8)
+    # --- boundary values of arguments (all legal)
+    if rng.random() < p.get("boundary", 0.12):
+        r_ = rng.random()
+        if r_ < 0.25 and n >= 2:
+            # a second link of ANOTHER kind between the same two tasks
+            cand = [(i, d) for i, t in enumerate(tasks) for d in t["deps"]]
+            if cand:
+                i, d = rng.choice(cand)
+                other = [k for k in p["kinds"] if k != d[1]]
+                if other:
+                    tasks[i]["deps"].append([d[0], rng.choice(other)])
+        elif r_ < 0.45:
+            # work_amount_progress_of_unit_step_time given to ordinary (worker-performed) tasks: it is the rate of AUTOMATIC tasks only
+            for t in tasks:
+                if not t["auto"] and rng.random() < 0.5:
+                    t["rate"] = rng.choice([0.5, 3.0])
+        elif r_ < 0.7 and comps:
+            # components without size, workplaces without capacity, exact fits
+            for c in comps:
+                if rng.random() < 0.4:
+                    c["space"] = 0.0
+            for w in wps:
+                r2 = rng.random()
+                if r2 < 0.2:
+                    w["max_space"] = 0.0
+                elif r2 < 0.5:
+                    w["max_space"] = rng.choice([c["space"] for c in comps])
+        elif r_ < 0.85:
+            sim["absence_as"] = rng.choice(["tuple", "set", "range"])     # the absence argument is some other iterable than a list
+        else:
+            sim["rule_as_int"] = True                                     # the rule is passed as the plain int of the enum member
     if n >= 2 and rng.random() < p.get("same_name", 0.06):
         # task names need not be unique (skills are per name, targeting and dependencies per object)
         j = rng.randrange(1, n)
@@ -850,3 +881,34 @@ def gen_fs_chain(n, work=1.0):
     teams = [dict(name="team0", id="TM0", targets=[0, 1], workers=workers)]
     return dict(tasks=tasks, comps=[], wps=[], teams=teams, sim=dict(rule=0, absence=[], auto_flag=False, max_time=10),
                 task_order=None, scale="fs_chain_%d" % n)
+
+
+def non_ascii_names(rng, spec):
+    """Names in other scripts / with accents (task names are also the keys of the skill maps)."""
+    pool = ["設計", "組立", "検査", "Tâche d'intégration", "Prüfung", "сборка", "溶接工", "Ünal", "café"]
+    ren = {}
+    for t in spec["tasks"]:
+        if rng.random() < 0.6 and t["name"] not in ren:
+            ren[t["name"]] = rng.choice(pool) + "_" + t["name"]
+    for t in spec["tasks"]:
+        t["name"] = ren.get(t["name"], t["name"])
+    for grp, key in ((spec["teams"], "workers"), (spec["wps"], "facilities")):
+        for g in grp:
+            if rng.random() < 0.5:
+                g["name"] = rng.choice(pool) + "_" + g["name"]
+            for r in g[key]:
+                r["skills"] = {ren.get(k, k): v for k, v in r["skills"].items()}
+                if rng.random() < 0.4:
+                    if key == "facilities":
+                        old = r["name"]
+                        r["name"] = rng.choice(pool) + "_" + old
+                        for tm in spec["teams"]:
+                            for w in tm["workers"]:
+                                if old in w["fskills"]:
+                                    w["fskills"][r["name"]] = w["fskills"].pop(old)
+                    else:
+                        r["name"] = rng.choice(pool) + "_" + r["name"]
+    for c in spec["comps"]:
+        if rng.random() < 0.4:
+            c["name"] = rng.choice(pool) + "_" + c["name"]
+    return spec
